@@ -4,6 +4,8 @@ import (
 	"bytes"
 	"encoding/json"
 	"fmt"
+	"os"
+	"path/filepath"
 	"testing"
 
 	"pgregory.net/rapid"
@@ -189,4 +191,59 @@ func TestC06(t *testing.T) {
 		}
 	}
 	r.SetExhaustive(fmt.Sprintf("constant piece sizes 1..64 x %d fixed streams", nstreams), true)
+	// The command-line decompressor has its own read loop on top of Reader.Read (fixed 32 KiB requests) and can take the
+	// compressed bytes from a pipe: the decoded file must not depend on how its buffer lines up with the block size
+	// (any multiple of 16) and with the batch size (jobs x block size), nor on whether the input is a file or a pipe.
+	if cliPath() != "" && !r.Failed() {
+		work := filepath.Join(r.Out, fmt.Sprintf("cli-work-%d", r.Shard))
+		defer os.RemoveAll(work)
+		r.Rapid(t, "cli-read-loop", 32, 1200, func(t *rapid.T) {
+			cfg := gen.DrawConfig(t, gen.ConfigOpts{MaxBlock: 131072, MaxJobs: 4})
+			cfg.Headerless = false
+			bs := int(cfg.BlockSize)
+			ln := rapid.IntRange(1, 3*int(cfg.Jobs)*bs+bs).Draw(t, "len")
+			if cfg.Entropy == "TPAQ" || cfg.Entropy == "TPAQX" || cfg.Entropy == "CM" {
+				ln = min(ln, 100000)
+			}
+			rc := gen.DrawRecipe(t, 1, "data")
+			rc.Len = ln
+			cfg.Hint, cfg.HintClass = 0, "absent"
+			if rapid.Bool().Draw(t, "hint") {
+				cfg.Hint, cfg.HintClass = int64(ln), "exact"
+			}
+			djobs := rapid.IntRange(1, 8).Draw(t, "djobs")
+			c := C06Case{Cfg: cfg, Data: rc, ReadJobs: uint(djobs)}
+			data := rc.Expand()
+			stream, err := Compress(data, cfg, nil)
+			if err != nil {
+				t.Skip("compress failed")
+			}
+			if out, err := Decompress(stream, cfg, uint(djobs), nil); err != nil || !bytes.Equal(out, data) {
+				t.Skip("plain round trip fails")
+			}
+			r.Inflight("granularity", c)
+			defer r.InflightDone()
+			os.MkdirAll(work, 0o755)
+			in, out := filepath.Join(work, "s.knz"), filepath.Join(work, "s.out")
+			os.WriteFile(in, stream, 0o644)
+			os.Remove(out)
+			res := runCLI(work, nil, "-d", "-v", "0", "-f", "-j", fmt.Sprint(djobs), "-i", in, "-o", out)
+			got, _ := os.ReadFile(out)
+			nt := len(data) > int(cfg.Jobs)*bs && bs%32768 != 0
+			r.Eval(vrt.HashOf(c), nt, "cli:file", "entropy:"+cfg.Entropy)
+			if res.rc != 0 || !bytes.Equal(got, data) {
+				r.Violation(t, "granularity", c, "command-line decompression of a valid %d-byte stream (%s, %d bytes of data) from a file: exit %d, %d bytes written, first difference at %d; %s",
+					len(stream), cfg.String(), len(data), res.rc, len(got), firstDiff(got, data), firstLines(res.out+res.err, 4))
+			}
+			res = runCLI(work, stream, "-d", "-v", "0", "-j", fmt.Sprint(djobs))
+			r.Eval(vrt.HashOf([]any{c, "pipe"}), nt, "cli:pipe", "entropy:"+cfg.Entropy)
+			if res.rc != 0 || res.out != string(data) {
+				r.Violation(t, "granularity", c, "command-line decompression of a valid stream (%s, %d bytes of data) from a pipe: exit %d, %d bytes written, first difference at %d; %s",
+					cfg.String(), len(data), res.rc, len(res.out), firstDiff([]byte(res.out), data), firstLines(res.err, 4))
+			}
+			if nt && r.WantSample() {
+				r.Sample(map[string]any{"mode": "cli-read-loop", "cfg": cfg.String(), "data": rc.String(), "decompress_jobs": djobs})
+			}
+		})
+	}
 }
